@@ -492,7 +492,37 @@ INT_JUSTIFY = {
 }
 
 
+def length_guarded(model, f, c, names):
+    """Is the conversion `c` dominated by a refusal of over-long text: `if len(<one of names>) > K: raise <NMFUError>` earlier in the function (top level)?
+    (F-126: int() refuses decimal strings beyond a few thousand digits with ValueError - a digits-only terminal does not make int() total.)"""
+    for st in f.body:
+        if getattr(st, "lineno", 0) >= c.lineno:
+            break
+        if isinstance(st, ast.If) and isinstance(st.test, ast.Compare) and len(st.test.ops) == 1 and isinstance(st.test.ops[0], (ast.Gt, ast.GtE)):
+            left = ast.unparse(st.test.left)
+            if any(left == f"len({n})" for n in names) and isinstance(st.body[-1], ast.Raise) and model.is_subclass(raised_class(st.body[-1]) or "", "NMFUError"):
+                return True
+    return False
+
+
 def int_justified(ctx, q, f, c):
+    ok, why = _int_justified(ctx, q, f, c)
+    if ok and (q in ("RegexMatch._repeat_count", "ParseCtx._convert_int") or "token" in why and "NUMBER" in why):
+        # unbounded digit strings: the terminal justifies the characters, not the length
+        arg = c.args[0]
+        names = {ast.unparse(arg)}
+        for n in ast.walk(arg):
+            if isinstance(n, ast.Name):
+                names.add(n.id)
+            if isinstance(n, ast.Attribute):
+                names.add(ast.unparse(n))
+        if "guarded by except" not in why and not length_guarded(ctx.model, f, c, names):
+            return False, (f"`{ast.unparse(c)}`: the text is digits, but of any length - int() refuses decimal strings beyond a few thousand digits with ValueError "
+                           "(a 5000-digit literal / size / repetition count ends in a traceback): no dominating `if len(text) > K: raise <diagnosed error>`")
+    return ok, why
+
+
+def _int_justified(ctx, q, f, c):
     model, g = ctx.model, ctx.grammar
     arg = ast.unparse(c.args[0])
     # guarded by try/except ValueError
@@ -1601,3 +1631,42 @@ _run14 = run
 def run(ctx, rep, tier):
     _run14(ctx, rep, tier)
     _tree_shape_typing(ctx, rep, tier)
+
+
+# ---------------------------------------------------------------------------------------------------------------- C18.s2
+def _optimiser_passes_report_real_progress(ctx, rep, tier):
+    """C18.s2 (F-125): compile() repeats the optimiser passes while any of them reports a modification. A pass that counts a rewrite which changes nothing - the
+    dummy-state removal retargeting a transition to where it points already: a dummy state whose only step leads back to itself - reports progress for ever."""
+    model = ctx.model
+    q = "DfaCompileCtx._optimize_shortcircuit_fallthroughs"
+    fn = model.func(q)
+    rep.rule("C18.s2", "a rewrite that retargets a transition past a state is only performed (and counted) when it moves the transition: a step that leads back to its own "
+                       "state is not bypassed - the pass loop in compile() ends when nothing changes")
+    n = 0
+    for loop in [x for x in ast.walk(fn) if isinstance(x, ast.For)]:
+        for i, st in enumerate(loop.body):
+            m = re.fullmatch(r"(\w+)\.to\((\w+)\.target\)", ast.unparse(st.value)) if isinstance(st, ast.Expr) else None
+            if m is None:
+                continue
+            tr, step = m.group(1), m.group(2)
+            # is `step` taken from tr.target's own transitions (the dummy-state half)? only then can step.target be tr.target again without the lookup having excluded it
+            from_target = any(isinstance(a, ast.Assign) and ast.unparse(a.targets[0]) == step and ast.unparse(a.value).startswith(f"{tr}.target.transitions[") for a in loop.body[:i])
+            if not from_target:
+                continue
+            n += 1
+            guard = any(isinstance(g, ast.If) and ast.unparse(g.test) in (f"{step}.target is {tr}.target", f"{step}.target == {tr}.target", f"{tr}.target is {step}.target") and
+                        isinstance(g.body[-1], ast.Continue) for g in loop.body[:i])
+            rep.check(guard, "C18.s2", q, f"{ast.unparse(st.value)} (dummy-state removal)",
+                      f"`{ast.unparse(st.value)}` is performed and counted also when `{step}.target` is the state `{tr}` points at already (a dummy state whose only step leads back to "
+                      "itself): nothing changes, the pass reports a modification every time and `while self._optimize_...(): pass` in compile() never ends - `loop { /c{0}/; }` at -O3",
+                      line=st.lineno)
+    if n < 1:
+        raise AnalysisError("C18.s2: dummy-state removal (a transition retargeted to the target of its target's only step) not found")
+
+
+_run15 = run
+
+
+def run(ctx, rep, tier):
+    _run15(ctx, rep, tier)
+    _optimiser_passes_report_real_progress(ctx, rep, tier)
